@@ -773,7 +773,7 @@ func (c SpzCase) posBytes() int {
 }
 
 func (c SpzCase) inDomain() bool {
-	if c.Version < 1 || c.Version > 2 || c.N < 0 || c.N > 100000 || c.Deg < 0 || c.Deg > 3 || c.FB < 0 || c.FB > 30 || c.Flags < 0 || c.Flags > 255 {
+	if c.Version < 1 || c.Version > 2 || c.N < 0 || c.N > 2000000 || c.Deg < 0 || c.Deg > 3 || c.FB < 0 || c.FB > 30 || c.Flags < 0 || c.Flags > 255 {
 		return false
 	}
 	if c.Level < -2 || c.Level > 9 {
@@ -1111,7 +1111,7 @@ func sweepCases() []LargeCase {
 }
 
 func runLarge(c LargeCase, o *vh.Obs) *vh.Failure {
-	if c.N < 1 || c.N > 100000 {
+	if c.N < 1 || c.N > 2000000 {
 		o.Class("out-of-domain")
 		return nil
 	}
@@ -1123,6 +1123,8 @@ func runLarge(c LargeCase, o *vh.Obs) *vh.Failure {
 	o.NonTrivial()
 	o.Class("large/" + c.Kind)
 	switch {
+	case c.N > 1000000:
+		o.Class("large/count-beyond-a-million")
 	case c.N > 65535:
 		o.Class("large/count-beyond-16-bit")
 	case c.N >= 32768:
@@ -1211,6 +1213,10 @@ func TestC15(t *testing.T) {
 	vh.Drive(t, vh.Spec[LargeCase]{Name: "large", Quick: 200, Thorough: 6000, Gen: genLarge, Run: runLarge})
 	// count sweep: every splat count 1..N once per codec (a defect that needs an exact multiple of an
 	// internal block size cannot be found by sampling counts)
+	// captured scenes hold 1-6 million splats: one stream and one .splat file beyond a million (~1 s each)
+	vh.Enumerate(t, vh.Spec[LargeCase]{Name: "million", Run: runLarge,
+		Key: func(c LargeCase) string { return fmt.Sprintf("million-%s-%d", c.Kind, c.N) }},
+		[]LargeCase{{Kind: "spz", N: 1200000, Seed: 7, Version: 2, Deg: 0, FB: 12, Level: gzip.BestSpeed}, {Kind: "splat", N: 1048577, Seed: 9}})
 	vh.Enumerate(t, vh.Spec[LargeCase]{Name: "count-sweep", Run: runLarge,
 		Key:    func(c LargeCase) string { return fmt.Sprintf("sweep-%s-%d", c.Kind, c.N) },
 		Sample: func(c LargeCase) any { return fmt.Sprintf("%s with %d splats", c.Kind, c.N) }}, sweepCases())
